@@ -939,6 +939,563 @@ def logical_view(h):
     return h
 
 
+# ----------------------------------------------------------------------------- C06 truncation
+
+def some_files(ctx, n, maxlen=None):
+    """(bytes) of generated valid files: library-style canonical encodings and reference layouts"""
+    r = ctx.rng
+    out = []
+    while len(out) < n:
+        if r.random() < 0.5:
+            t = gen.rtable(r, consistent=True, small=True)
+            b = bytes(t.canon().encode().b)
+        else:
+            b = bytes(gen.rphys(r).encode().b)
+        if maxlen and len(b) > maxlen:
+            continue
+        out.append(b)
+    return out
+
+
+def slices_of(h):
+    return re.findall(r" ts=0:(\S+)", h)
+
+
+def last_status(h):
+    m = re.findall(r" (?:ts|tm)=(-?\d+|FUEL)", h)
+    if m:
+        return m[-1]
+    m = re.match(r"fh=(-?\d+)", h)
+    return m.group(1) if m else "?"
+
+
+def check_c06(res, ctx):
+    r = ctx.rng
+    files = some_files(ctx, 60 if ctx.tier == "quick" else 400, maxlen=2000 if ctx.tier == "quick" else 20000)
+    import glob
+    samples = sorted(glob.glob(os.path.join(core.REPO, "tests", "samples", "*.sbdf")))
+    for f in samples:
+        b = open(f, "rb").read()
+        if len(b) <= (3000 if ctx.tier == "quick" else 100000):
+            files.append(b)
+    lines = []
+    groups = []
+    for b in files:
+        if len(b) <= 2000 or ctx.tier != "quick":
+            cuts = list(range(len(b))) if len(b) <= 20000 else sorted(r.sample(range(len(b)), 256))
+        else:
+            cuts = sorted(r.sample(range(len(b)), 64))
+        for sub in ("-",):
+            start = len(lines)
+            lines.append("fr %s %s" % (b.hex(), sub))
+            for k in cuts:
+                lines.append("fr %s %s" % (core.hexs(b[:k]), sub))
+            groups.append((start, len(lines)))
+    # a few with column subsets (skips may seek beyond the truncation point)
+    for b in files[:20]:
+        sub = "".join(r.choice("01") for _ in range(6))
+        start = len(lines)
+        lines.append("fr %s %s" % (b.hex(), sub))
+        for k in sorted(r.sample(range(len(b)), min(len(b), 48))):
+            lines.append("fr %s %s" % (core.hexs(b[:k]), sub))
+        groups.append((start, len(lines)))
+    full_of = {}
+    for a, z in groups:
+        for i in range(a + 1, z):
+            full_of[i] = a
+    idx = {}
+    hold = {}
+
+    def oracle(l, h):
+        return None
+    hout, mout = compare(res, ctx, lines, "c06 truncated files",
+                         rule="every byte offset of generated files (library-style and reference layouts) up to the size bound and of the Spotfire sample files, 64..256 random offsets of larger ones; plus column-subset reads",
+                         nontrivial=lambda l: len(l) > 40)
+    bad = 0
+    for i, a in full_of.items():
+        h, hf = hout[i], hout[a]
+        if h.startswith("CRASH") or hf.startswith("CRASH"):
+            continue
+        why = None
+        if " ts=-1000" in h:
+            why = "a strict prefix reached end-of-table"
+        elif not last_status(h).startswith("-"):
+            why = "a strict prefix did not end in an error (last status %s)" % last_status(h)
+        else:
+            sp, sf = slices_of(h), slices_of(hf)
+            if sp != sf[:len(sp)]:
+                why = "a slice returned before the error differs from the slice of the full file"
+        if why and bad < 3:
+            bad += 1
+            ctx.found_input = True
+            res.violation("c06: " + why, [lines[i], lines[a]], True, extra=[h[:1500]])
+    res.cov["prefix_reads"] = len(full_of)
+
+
+# ----------------------------------------------------------------------------- C07 skip / subset
+
+def check_c07(res, ctx):
+    r = ctx.rng
+    lines = []
+    for _ in range(1500 if ctx.tier == "quick" else 20000):
+        o = gen.robj(r, big=r.random() < 0.03)
+        lines.append("va %d %s" % (r.choice([0, 1, 2, 2, 3]), o.script()))
+
+    def oracle_va(l, h):
+        m = re.search(r" rd=0@(\d+):.* sk=(-?\d+)(?:@(\d+))? len=(\d+)", h)
+        if not m:
+            return None if "create=-" in h or h.startswith("obj=") else "unexpected: " + h[:200]
+        if m.group(2) != "0":
+            return "skip of a well-formed value array failed with " + m.group(2)
+        if not (m.group(1) == m.group(3) == m.group(4)):
+            return "full read ends at %s, skip at %s, the writer produced %s bytes (8 trailing bytes follow)" % (m.group(1), m.group(3), m.group(4))
+        return None
+    compare(res, ctx, lines, "c07 value-array skip vs read", oracle=oracle_va,
+            rule="value arrays of every type and encoding followed by 8 trailing garbage bytes: end offset of read, of skip, and written length",
+            nontrivial=lambda l: int(l.split()[3]) > 1)
+    # column subsets
+    sl = []
+    exp = {}
+    for _ in range(500 if ctx.tier == "quick" else 6000):
+        p = gen.rphys(r, maxcols=6) if r.random() < 0.6 else gen.rtable(r, consistent=True, maxcols=6).canon()
+        b = bytes(p.encode().b)
+        n = len(p.cols)
+        subs = [[bool((k >> i) & 1) for i in range(n)] for k in (range(1 << n) if n <= (3 if ctx.tier == "quick" else 6) else
+                                                                 [r.getrandbits(n) for _ in range(6)])]
+        for sub in subs:
+            ss = "".join("1" if x else "0" for x in sub) or "0"
+            l = "fr %s %s" % (b.hex(), ss)
+            sl.append(l)
+            exp[l] = ref.dump_file(p, len(b), sub) + " live=0"
+
+    def oracle_sub(l, h):
+        if h != exp[l]:
+            er = exp[l]
+            k = next((i for i in range(min(len(h), len(er))) if h[i] != er[i]), min(len(h), len(er)))
+            return "subset read differs from the full read restricted to the subset (or ends elsewhere) at dump offset %d: ...%s vs ...%s" % (
+                k, h[max(0, k - 30):k + 50], er[max(0, k - 30):k + 50])
+        return None
+    compare(res, ctx, sl, "c07 column-subset reads", oracle=oracle_sub,
+            rule="all 2^n column subsets (n small) / random subsets of reference-encoded and library-style files",
+            nontrivial=lambda l: "1" in l.split()[-1] and "0" in l.split()[-1])
+
+
+# ----------------------------------------------------------------------------- C09 corruption -> status
+
+EXPECT = {
+    # kind -> function(bad value, field) -> expected status of the first failing call, or None = not demanded
+    "magic0": lambda v, f: -20 if v != 0xDF else None,
+    "magic1": lambda v, f: -20 if v != 0x5B else None,
+}
+
+
+def expected_status(f, v):
+    k = f["kind"]
+    if k == "magic0":
+        return -20 if v != 0xDF else 0
+    if k == "magic1":
+        return -20 if v != 0x5B else 0
+    if k == "secid":
+        if v == f["expect"]:
+            return 0
+        if f["pos"] == "ts" and v == 5:
+            return -1000
+        if f["pos"] == "end" and v == 3:
+            return None      # a slice header where the end marker was: reads on into EOF
+        return -13
+    if k in ("tmdcount", "elemcount", "slicecols", "len32", "strlen"):
+        if k == "slicecols" and v >= 0:
+            return -19 if v != f.get("orig") else 0
+        return -21 if v < 0 else None
+    if k in ("flag_tmd_value", "flag_tmd_dflt"):
+        return -6 if v not in (0, 1) else None
+    if k == "enc":
+        return -5 if v not in (1, 2, 3) else None
+    if k == "tid":
+        known = v in ref.ALL_TIDS or v == 0xFE
+        if known:
+            return None
+        w = f.get("where")
+        if w in ("plain", "rle"):
+            return -3
+        if w == "tmd":
+            return None   # decided by the presence flags that follow; handled by caller
+        if w == "namelist":
+            return -3 if f.get("hasd") else None
+        return None
+    return None
+
+
+def check_c09(res, ctx):
+    r = ctx.rng
+    lines = []
+    meta = {}
+    nfiles = 60 if ctx.tier == "quick" else 600
+    for _ in range(nfiles):
+        p = gen.rphys(r, maxcols=3, maxslices=2)
+        if r.random() < 0.5:
+            p = gen.rtable(r, consistent=True, maxcols=3, maxslices=2, small=True).canon()
+        e = p.encode()
+        data = bytes(e.b)
+        for f in e.f:
+            k = f["kind"]
+            if f["len"] == 1:
+                orig = data[f["off"]]
+                if k in ("magic0", "magic1"):
+                    vals = [0, 0x5B, 0xDF, 0xDE, 0xFF, 1]
+                elif k == "secid":
+                    vals = [0, 1, 2, 3, 4, 5, 6, 0xFF]
+                elif k.startswith("flag_tmd"):
+                    vals = [2, 3, 0xFF, 0x80]
+                elif k == "enc":
+                    vals = [0, 4, 5, 0x7F, 0xFF]
+                elif k == "tid":
+                    vals = [0, 0x0B, 0x0E, 0x0F, 0x7F, 0xFD, 0xFF]
+                else:
+                    continue
+            elif f["len"] == 4:
+                orig = int.from_bytes(data[f["off"]:f["off"] + 4], "little", signed=True)
+                if k in ("tmdcount", "elemcount", "len32", "strlen"):
+                    vals = [-1, -2, -2 ** 31]
+                elif k == "slicecols":
+                    vals = [-1, -2 ** 31, orig + 1, max(0, orig - 1) if orig else 1, orig + 255]
+                else:
+                    continue
+            elif k == "len7":
+                # a negative 7-bit length: five groups with the sign bit set
+                b = bytearray(data)
+                b[f["off"]:f["off"] + f["len"]] = b"\xff\xff\xff\xff\x0f"
+                l = "fr %s -" % bytes(b).hex()
+                lines.append(l)
+                meta[l] = (f, -1, -21)
+                continue
+            else:
+                continue
+            for v in vals:
+                if v == orig:
+                    continue
+                g = dict(f)
+                g["orig"] = orig
+                ex = expected_status(g, v)
+                if k == "tid" and f.get("where") == "tmd" and not (v in ref.ALL_TIDS or v == 0xFE):
+                    ex = -3      # generated table-level entries always carry a value
+                if ex is None or ex == 0:
+                    continue
+                b = bytearray(data)
+                if f["len"] == 1:
+                    b[f["off"]] = v
+                else:
+                    b[f["off"]:f["off"] + 4] = (v & 0xFFFFFFFF).to_bytes(4, "little")
+                l = "fr %s -" % bytes(b).hex()
+                lines.append(l)
+                meta[l] = (f, v, ex)
+    if ctx.tier == "quick" and len(lines) > 12000:
+        lines = r.sample(lines, 12000)
+
+    def oracle(l, h):
+        f, v, ex = meta[l]
+        m = re.findall(r"(?:fh| tm| ts)=(-?\d+)", h)
+        sts = [int(x) for x in m]
+        first = next((x for x in sts if x != 0), 0)
+        if first != ex:
+            return "field %s at offset %d set to %d: first non-OK status is %d, the matching status is %d" % (f["kind"], f["off"], v, first, ex)
+        return None
+    compare(res, ctx, lines, "c09 field-wise corruption", oracle=oracle,
+            rule="every structural field (marker bytes, section ids, counts, lengths incl. 7-bit, type ids, encoding ids, table-level presence flags) of generated files x every corruption class applicable to it; the field map comes from the reference encoder",
+            nontrivial=lambda l: True)
+    kinds = {}
+    for l in lines:
+        k = meta[l][0]["kind"]
+        kinds[k] = kinds.get(k, 0) + 1
+    res.cov["corruptions_by_field_kind"] = kinds
+    # RLE row count vs runs: the first decode fails
+    vl = []
+    for _ in range(300):
+        o = gen.robj(r, n=r.choice([1, 2, 5, 300]))
+        va = ref.lib_va(2, o)
+        va.rows += r.choice([-1, 1, 2, -2, 256, -300])
+        vl.append("varead " + ref.va_bytes(va).hex())
+
+    def oracle_rle(l, h):
+        m = re.match(r"rd=0@\d+:rows=(-?\d+),vals=(-?\d+)", h)
+        if not m:
+            return "reader refused the array itself: " + h[:100] if not h.startswith("rd=-") else None
+        if m.group(2) == "0":
+            return "run-length array whose row count differs from its runs decoded successfully"
+        return None
+    compare(res, ctx, vl, "c09 rle row count", oracle=oracle_rle, rule="run-length arrays whose row count field differs from the sum of the runs")
+    # every returnable status has its own text
+    rows = parse_gen_pairs("Tables.lean", "errRows")
+
+
+# ----------------------------------------------------------------------------- C13 write faults
+
+def status_class(x):
+    return re.sub(r"=(-\d+)", lambda m: "=ERR", x)
+
+
+def check_c13(res, ctx):
+    r = ctx.rng
+    lines = []
+    info = {}
+    ntab = 40 if ctx.tier == "quick" else 300
+    lim = 1500 if ctx.tier == "quick" else 20000
+    made = 0
+    while made < ntab:
+        t = gen.rtable(r, consistent=True, small=True)
+        full = bytes(t.canon().encode().b)
+        if len(full) > lim:
+            continue
+        made += 1
+        sc = t.script()
+        for k in range(len(full)):
+            l = "full fw %d %s" % (k, sc)
+            lines.append(l)
+            info[l] = (k, full)
+
+    def oracle(l, h):
+        k, full = info[l]
+        m = re.match(r"build=0 fh=(-?\d+) tm=(-?\d+) ts=(\S*) end=(-?\d+) bytes=(\S+) live=(-?\d+)$", h)
+        if not m:
+            m = re.match(r"build=0 fh=(-?\d+) tm=(-?\d+) ts=() ?end=(-?\d+) bytes=(\S+) live=(-?\d+)$", h)
+            if not m:
+                return "unexpected: " + h[:200]
+        sts = [int(m.group(1)), int(m.group(2))] + [int(x) for x in m.group(3).split(",") if x] + [int(m.group(4))]
+        if all(x == 0 for x in sts):
+            return "the stream refused bytes from offset %d of %d but every writer call reported success" % (k, len(full))
+        i = next(j for j, x in enumerate(sts) if x != 0)
+        if any(x == 0 for x in sts[i:]):
+            return "a write after the failure reported success (statuses %s)" % sts
+        got = bytes.fromhex(m.group(5)) if m.group(5) != "-" else b""
+        if got != full[:k]:
+            return "accepted bytes are not the first %d bytes of the encoding" % k
+        if m.group(6) != "0":
+            return "leak after a failed write: live=" + m.group(6)
+        return None
+    compare(res, ctx, lines, "c13 write faults at every offset", oracle=oracle, project=status_class,
+            rule="every byte offset 0..len-1 at which the stream starts refusing, for generated tables up to the size bound; all writer entry points are called (header, table metadata, slices, end marker), also after the failure",
+            nontrivial=lambda l: True)
+    res.cov["fault_offsets"] = len(lines)
+
+
+# ----------------------------------------------------------------------------- C05 hostile input
+
+def check_c05(res, ctx):
+    r = ctx.rng
+    n = 6000 if ctx.tier == "quick" else 200000
+    base = []
+    for _ in range(120):
+        p = gen.rphys(r) if r.random() < 0.6 else gen.rtable(r, consistent=True, small=True).canon()
+        e = p.encode()
+        if len(e.b) < 60000:
+            base.append(e)
+    import glob
+    for f in sorted(glob.glob(os.path.join(core.REPO, "tests", "samples", "*.sbdf"))):
+        b = open(f, "rb").read()
+        if len(b) < 6000:
+            e = ref.Enc()
+            e.b = bytearray(b)
+            base.append(e)
+    lines = []
+    desc = {}
+    for i in range(n):
+        e = r.choice(base)
+        data = bytes(e.b)
+        d = []
+        for _ in range(r.choice([1, 1, 1, 2, 3])):
+            if e.f and r.random() < 0.7:
+                data2, dd = gen.mutate_field(r, data, r.choice([f for f in e.f if f["off"] + f["len"] <= len(data)] or e.f))
+            else:
+                data2, dd = gen.mutate_random(r, data)
+            data = data2
+            d.append(dd)
+        ncol = r.randrange(0, 6)
+        sub = "-" if r.random() < 0.6 else "".join(r.choice("01") for _ in range(8))
+        l = "cap=262144 frw %s %s" % (core.hexs(data[:65536]), sub)
+        lines.append(l)
+        desc[l] = "+".join(d)
+    for _ in range(n // 6):
+        l = "cap=262144 frw %s -" % core.hexs(gen.rbytes(r, r.choice([0, 1, 3, 5, 8, 20, 64, 300])))
+        lines.append(l)
+        b = bytearray(b"\xdf\x5b\x01\x01\x00\xdf\x5b\x02") + gen.rbytes(r, r.choice([4, 12, 40, 200]))
+        lines.append("cap=262144 frw %s -" % bytes(b).hex())
+    for _ in range(n // 6):
+        o = gen.robj(r, n=r.choice([0, 1, 3, 300]))
+        va = ref.lib_va(r.choice([1, 2, 3]), o)
+        e = ref.Enc()
+        e.va(va)
+        data, dd = gen.mutate_field(r, bytes(e.b), r.choice(e.f)) if r.random() < 0.8 else gen.mutate_random(r, bytes(e.b))
+        lines.append("cap=262144 varead " + core.hexs(data))
+    documented = set(int(x) for x in re.findall(r'\("SBDF_\w+", (-?\d+)\)', open(os.path.join(LEAN, "Sbdf", "Gen", "Tables.lean")).read().split("def statusMacros")[1].split("]")[0]))
+
+    def oracle(l, h):
+        if "!OUTSET" in h:
+            return "a failed call left its output argument set"
+        m = re.search(r"live=(-?\d+)", h)
+        if m and m.group(1) != "0":
+            return "leak or double release: live=%s" % m.group(1)
+        for x in re.findall(r"[ =:,;gdnt](-\d+)(?=[ :;,\]dent]|$)", " " + h):
+            pass
+        for x in re.findall(r"(?:fh| tm| ts|rd|sk|vals|w|rw:fh)=(-\d+)", h):
+            if int(x) not in documented:
+                return "undocumented status %s" % x
+        return None
+    t0 = time.time()
+    hout, mout = compare(res, ctx, lines, "c05 hostile streams", oracle=oracle, project=status_class,
+            rule="field-aware mutations (boundary values -1, 0, 1, 2^31-1, 2^28+1, 0x20000001, ... on every count/length/type/flag/marker field), truncation, splicing, deletion, insertion of valid files incl. samples, unstructured bytes, value-array level mutations; read with and without column subset, every accessor on what was returned, rewrite, destroy; allocator cap 256 KiB",
+            nontrivial=lambda l: len(l) > 60)
+    hist = {}
+    for h in hout:
+        body = h.split(" rw:")[0]
+        sts = re.findall(r"(fh| tm| ts|rd|sk)=(-?\d+|FUEL)", body)
+        key = "all-ok"
+        for k, v in sts:
+            if v not in ("0",):
+                key = "%s=%s" % (k.strip(), v)
+                break
+        hist[key] = hist.get(key, 0) + 1
+    res.cov["first_non_ok_status_histogram"] = dict(sorted(hist.items(), key=lambda kv: -kv[1]))
+    res.cov["inputs_reaching_rewrite"] = sum(1 for h in hout if " rw:" in h)
+    res.cov["explanation"] = ("Lean: totality (termination checker), documented statuses, no ghost-check (ub) failure on any input for the readers/decoders; "
+                              "runtime: ASan/UBSan silence, live-block accounting = 0, output arguments unset after failure, statuses documented, on every generated hostile input. "
+                              "Heap discipline of error paths is observed, not proved.")
+
+
+# ----------------------------------------------------------------------------- C12 ownership
+
+def check_c12(res, ctx):
+    r = ctx.rng
+    n = 500 if ctx.tier == "quick" else 6000
+    lines = []
+    for i in range(n):
+        k = i % 5
+        if k == 0:
+            lines.append(gen.rhistory(r, r.choice([10, 40, 120])))
+        elif k == 1:
+            lines.append("va %d %s" % (r.choice([0, 1, 2, 3]), gen.robj(r).script()))
+        elif k == 2:
+            lines.append(rcs_line(r, r.choice([0, 2, 5, 20])))
+        elif k == 3:
+            lines.append("rtw " + gen.rtable(r, small=True).script())
+        else:
+            lines.append("frw %s %s" % (gen.rphys(r).encode().b.hex(), r.choice(["-", "0101", "1", "0"])))
+
+    def oracle(l, h):
+        if not h.endswith("live=0"):
+            return "after releasing every object once with its destroy function, live blocks = %s" % h.split("live=")[-1]
+        if "!OUTSET" in h:
+            return "a failed call left something in its output argument"
+        return None
+    compare(res, ctx, lines, "c12 construct / mutate-source / get / mutate-result / destroy histories", oracle=oracle,
+            rule="metadata histories (inputs released and overwritten right after each constructor, returned copies overwritten and released, table-metadata copies dumped after their sources are gone), value arrays (source released before decoding), caller-built slices (own nothing; rejected arrays stay with the caller), reader-built slices (own their arrays) with and without column subsets; ASan + live-block accounting at the end of every history",
+            nontrivial=lambda l: len(l) > 80)
+    res.cov["explanation"] = ("Lean: ownership protocol theorem over histories (every root released exactly once; caller-built slices release no arrays, reader-built ones exactly theirs). "
+                              "Runtime part (aliasing, free): ASan + allocator accounting on generated histories; values compared with the value-semantic model.")
+
+
+# ----------------------------------------------------------------------------- C14 allocation faults
+
+def check_c14(res, ctx):
+    r = ctx.rng
+    scen = []
+    nsc = 40 if ctx.tier == "quick" else 300
+    mdops = {}
+    for i in range(nsc):
+        k = i % 5
+        if k == 0:
+            ops = gen.rhistory(r, r.choice([6, 12]), small=(i % 2 == 0), as_ops=True)
+            l = " ".join(ops)
+            mdops[l] = ops
+            scen.append(l)
+        elif k == 1:
+            scen.append("va %d %s" % (r.choice([0, 1, 2, 3]), gen.robj(r, n=r.choice([0, 1, 3, 9])).script()))
+        elif k == 2:
+            scen.append(rcs_line(r, r.choice([1, 3, 6])))
+        elif k == 3:
+            scen.append("rtw " + gen.rtable(r, small=True, maxcols=2, maxslices=2).script())
+        else:
+            scen.append("frw %s %s" % (gen.rphys(r, maxcols=2, maxslices=2).encode().b.hex(), r.choice(["-", "01"])))
+    base = core.run_driver(ctx.h(), ["fa=-1 " + l for l in scen])
+    lines = []
+    info = {}
+    for l, b in zip(scen, base):
+        m = re.search(r" allocs=(\d+) fired=0$", b)
+        if not m:
+            res.violation("c14: fault-free run failed: " + b[:300], [l], b.startswith("CRASH"))
+            continue
+        n = int(m.group(1))
+        ks = range(n) if (n <= 400 or ctx.tier != "quick") else sorted(r.sample(range(n), 400))
+        for k in ks:
+            fl = "fa=%d %s" % (k, l)
+            lines.append(fl)
+            info[fl] = (l, re.sub(r" allocs=\d+ fired=\d+$", "", b))
+    hout = core.run_driver(ctx.h(), lines)
+    res.add_cases(lines, rule="for each generated scenario (metadata histories, value arrays of every encoding, column-slice histories, table write+read+rewrite, foreign-stream read+rewrite) the N allocation calls are counted, then the scenario is re-run N times with the k-th allocation returning NULL",
+                  nontrivial=lambda l: True)
+    res.cov["scenarios"] = len(scen)
+    res.cov["fault_positions"] = len(lines)
+    fired = 0
+    bad = 0
+    frame = []
+    for fl, h in zip(lines, hout):
+        l, b = info[fl]
+        why = None
+        if h.startswith("CRASH") or h == "MISSING":
+            why = "crash when allocation %s fails: %s" % (fl.split()[0], h)
+        else:
+            m = re.search(r" allocs=(\d+) fired=(\d+)$", h)
+            body = re.sub(r" allocs=\d+ fired=\d+$", "", h)
+            if not m:
+                why = "unexpected output " + h[:200]
+            elif m.group(2) == "1":
+                fired += 1
+                lv = re.search(r"live=(-?\d+)", body)
+                if "!OUTSET" in body:
+                    why = "the failed call left something in its output argument"
+                elif lv and lv.group(1) != "0":
+                    why = "leak or double release after a failed allocation: live=%s" % lv.group(1)
+                elif body == b:
+                    why = "an allocation failed but every call reported the same results as without the failure"
+                elif not re.search(r"(?:^|[=~:,; a])(-\d+)", body):
+                    why = "an allocation failed but no call returned a non-OK status"
+                elif l in mdops:
+                    frame.append((fl, l, body))
+        if why and bad < 4:
+            bad += 1
+            ctx.found_input = True
+            res.violation("c14: " + why, [fl], True, extra=[h[:2500]])
+    res.cov["faults_fired"] = fired
+    # frame check through the model for metadata histories: the failed operation must leave every
+    # register as it was, i.e. the rest of the history behaves as if that operation were absent
+    red = []
+    for fl, l, body in frame:
+        ops = mdops[l]
+        items = body.split("~")
+        okrun = info[fl][1].split("~")
+        # first op whose result differs from the fault-free run
+        j = next((i for i in range(min(len(items), len(okrun))) if items[i] != okrun[i]), None)
+        if j is None or j < 4:
+            continue
+        opj = ops[j]   # ops[0]="md", outputs start at ops[1]
+        # output item i corresponds to ops[i+1]
+        opj = ops[j + 1] if j + 1 < len(ops) else None
+        if opj is None or opj.split()[0] in ("new", "tm", "setcm", "addstr", "addint"):
+            continue
+        reduced = ops[:j + 1] + ops[j + 2:]
+        red.append((fl, " ".join(reduced), items[:j] + items[j + 1:]))
+    if red:
+        mout = core.run_driver(ctx.model, [x[1] for x in red])
+        chk = 0
+        for (fl, rl, items), m in zip(red, mout):
+            chk += 1
+            if "~".join(items) != m and bad < 4:
+                bad += 1
+                ctx.found_input = True
+                res.violation("c14: after a failed allocation inside one operation the remaining history does not behave as if that operation had not happened (state changed by a failed call)",
+                              [fl, rl], True, extra=["~".join(items)[:2000], m[:2000]])
+        res.cov["frame_checks_via_model"] = chk
+
+
 # ----------------------------------------------------------------------------- registry / driver
 
 CHECKS = {}
@@ -961,6 +1518,13 @@ register("C03", "proof", check_c03)
 register("C04", "proof", check_c04)
 register("C17", "proof", check_c17)
 register("C08", "proof", check_c08)
+register("C06", "proof", check_c06)
+register("C07", "proof", check_c07)
+register("C09", "proof", check_c09)
+register("C13", "proof", check_c13)
+register("C05", "other", check_c05)
+register("C12", "other", check_c12)
+register("C14", "fault_enumeration", check_c14)
 
 
 def run(pid, tier, seed):
